@@ -476,6 +476,7 @@ type Clause struct {
 	Label string
 	Src   string
 	E     SExpr
+	Needs []string // iterinv: the other iteration invariants its preservation proof may use ("-" = none); nil = all
 }
 
 type LoopSpec struct {
@@ -520,6 +521,17 @@ type FuncContract struct {
 	BoundedOnly bool
 	BoundN    int // loop unroll bound of the bounded run (default 4)
 	DynTypes  map[string]string // result -> concrete type of an interface result
+	Cuts      []CutSpec  // cut points (block contracts) in the function's own body
+	Iterates  []IterSpec // parameters holding a callback that the (trusted) callee invokes any number of times
+	IterInv   []Clause // closure contract: invariant over the captured variables, kept by every invocation
+}
+
+// IterSpec: `iterates f [with <expr>]`: the callee invokes its parameter f any number of
+// times; <expr> (over the callee's parameters and $x for f's own parameters) is what the
+// callee guarantees about the arguments it passes.
+type IterSpec struct {
+	Param string
+	With  SExpr
 }
 
 type LetSpec struct {
@@ -577,7 +589,7 @@ var clauseKeywords = map[string]bool{
 	"requires": true, "ensures": true, "assigns": true, "loop": true, "inline": true,
 	"invariant": true, "guarded_by": true, "opaque": true, "trusted": true, "may_panic": true,
 	"wire": true, "noverify": true, "sort": true, "note": true, "let": true, "import": true,
-	"pure": true, "callassert": true, "havoc": true, "witness": true, "ghost": true, "guarded": true, "extern": true, "bounded": true, "boundedonly": true, "dyntype": true,
+	"pure": true, "callassert": true, "havoc": true, "witness": true, "ghost": true, "guarded": true, "extern": true, "cut": true, "iterates": true, "iterinv": true, "bounded": true, "boundedonly": true, "dyntype": true,
 }
 
 // extractContractLines pulls the "//@" lines out of a Go source or .spec file
@@ -776,6 +788,64 @@ func (db *ContractDB) parseFile(pkgPath, file, src string) error {
 			if curF != nil {
 				curF.Props = append(curF.Props, strings.Fields(rest)...)
 			}
+		case "cut":
+			// cut <callee>: [label:] <expr>   (several clauses for one callee accumulate)
+			if curF == nil {
+				return fail(fmt.Errorf("cut outside func"))
+			}
+			i := strings.Index(rest, ":")
+			if i < 0 {
+				return fail(fmt.Errorf("cut <callee>: <expr>"))
+			}
+			callee := strings.TrimSpace(rest[:i])
+			c, err := parseClause(strings.TrimSpace(rest[i+1:]), fmt.Sprintf("%d", len(curF.Cuts)+1))
+			if err != nil {
+				return fail(err)
+			}
+			found := false
+			for k := range curF.Cuts {
+				if curF.Cuts[k].Callee == callee {
+					curF.Cuts[k].Cl = append(curF.Cuts[k].Cl, c)
+					found = true
+				}
+			}
+			if !found {
+				curF.Cuts = append(curF.Cuts, CutSpec{Callee: callee, Cl: []Clause{c}})
+			}
+		case "iterates":
+			if curF == nil {
+				return fail(fmt.Errorf("iterates outside func"))
+			}
+			is := IterSpec{Param: strings.TrimSpace(rest)}
+			if i := strings.Index(rest, " with "); i >= 0 {
+				is.Param = strings.TrimSpace(rest[:i])
+				e, err := parseSpecExpr(strings.TrimSpace(rest[i+6:]))
+				if err != nil {
+					return fail(err)
+				}
+				is.With = e
+			}
+			curF.Iterates = append(curF.Iterates, is)
+		case "iterinv":
+			if curF == nil {
+				return fail(fmt.Errorf("iterinv outside func"))
+			}
+			// iterinv <label> [needs a, b | needs -]: <expr>
+			var needs []string
+			if i := strings.Index(rest, ":"); i > 0 && !strings.HasPrefix(rest[i:], "::") {
+				if j := strings.Index(rest[:i], " needs "); j > 0 {
+					for _, n := range strings.Split(rest[j+7:i], ",") {
+						needs = append(needs, strings.TrimSpace(n))
+					}
+					rest = rest[:j] + rest[i:]
+				}
+			}
+			c, err := parseClause(rest, fmt.Sprintf("%d", len(curF.IterInv)+1))
+			if err != nil {
+				return fail(err)
+			}
+			c.Needs = needs
+			curF.IterInv = append(curF.IterInv, c)
 		case "requires", "ensures":
 			if curF == nil {
 				return fail(fmt.Errorf("clause outside func"))
@@ -1024,6 +1094,13 @@ func parseAssign(s string) (AssignSpec, error) {
 		as.Heap = strings.TrimSpace(s[5:])
 	case strings.HasPrefix(s, "target(") && strings.HasSuffix(s, ")"):
 		as.Kind = "target"
+		e, err := parseSpecExpr(s[7 : len(s)-1])
+		if err != nil {
+			return as, err
+		}
+		as.E = e
+	case strings.HasPrefix(s, "region(") && strings.HasSuffix(s, ")"):
+		as.Kind = "region"
 		e, err := parseSpecExpr(s[7 : len(s)-1])
 		if err != nil {
 			return as, err
